@@ -138,8 +138,11 @@ void run_tree(const Forest &f, const std::string &scratch) {
     fs::remove_all(root); fs::create_directory(root);
     materialize(f, root, 0);
     fs::current_path(root);
+    int fds_before = open_fds();
     for (const std::string &s : {root, std::string("."), root + "/"}) check_path(s);
     walk(f, root, "", 0, root);
+    // the queries must not use up the process: a descriptor kept open per call makes every query fail once the limit is reached ("any fan-out")
+    if (int leaked = open_fds() - fds_before; leaked > 0) bad("fs:descriptor-leak", fmt("%d file descriptor(s) are still open after the queries on this tree (exists/isFile/isDirectory/size/listChildren/DirectoryVisitor must release what they open)", leaked));
     if (Path::getWorkingDirectory().toString() != root) bad("fs:getWorkingDirectory", "getWorkingDirectory() differs from the real working directory");
     fs::current_path(scratch);
 }
